@@ -7,7 +7,7 @@ CONSTANTS
   SeedingChoices = {TRUE}
   DupAdd = FALSE  ExpireUsed = FALSE  NoGate = FALSE  ForgetHistory = FALSE
   Nodes = {1}  NSwarmA = 1  PSeeders = {1}  PexAge = 3  PexCap = 2  SendCap = 10
-  Unload = FALSE  ExpireNewest = FALSE  CrossSwarm = FALSE  MaxMsgs = 0
+  Unload = FALSE  ExpireNewest = FALSE  CrossSwarm = FALSE  MaxMsgs = 0  MaxAnn = 2
 INVARIANT TypeOK
 INVARIANT SwarmNoDup
 INVARIANT HistoryExact
